@@ -111,16 +111,3 @@ pub trait R7From<T>: Sized {
     fn from(v: T) -> Self
         requires Self::r7_pre(v);
 }
-
-// -- sequence algebra used to compare a generated format-stub postcondition with `canonical`
-pub broadcast proof fn lemma_seq_add_assoc(a: Seq<char>, b: Seq<char>, c: Seq<char>)
-    ensures #[trigger] ((a + b) + c) == a + (b + c)
-{
-    assert(((a + b) + c) =~= a + (b + c));
-}
-
-pub broadcast proof fn lemma_seq_empty_add(a: Seq<char>)
-    ensures #[trigger] (Seq::<char>::empty() + a) == a
-{
-    assert((Seq::<char>::empty() + a) =~= a);
-}
